@@ -31,8 +31,12 @@ try:
                 print("   ", l[:300])
         if res == "infra":
             print(r.stdout[-1500:], r.stderr[-1500:])
-        m = json.load(open(mpath)) if os.path.exists(mpath) else {}
-        m.setdefault(seed, {})[p] = res
-        json.dump(m, open(mpath, "w"), indent=1, sort_keys=True)
+        import fcntl
+        with open(mpath + ".lock", "w") as lk:
+            fcntl.flock(lk, fcntl.LOCK_EX)
+            m = json.load(open(mpath)) if os.path.exists(mpath) else {}
+            m.setdefault(seed, {})[p] = res
+            json.dump(m, open(mpath + ".tmp", "w"), indent=1, sort_keys=True)
+            os.replace(mpath + ".tmp", mpath)
 finally:
     shutil.rmtree(d, ignore_errors=True)
